@@ -179,11 +179,13 @@ def run(ctx):
         r = res.get(scn["id"])
         if not r:
             ctx.inconclusive += 1
+            ctx.count("inconclusive_nsim_gave_no_result")
             continue
         try:
             judge(ctx, scn, scs, ci, r)
         except model.Invalid:
             ctx.inconclusive += 1
+            ctx.count("inconclusive_scenario_rejected_by_model")
     ctx.rule = ("graphs of 2..8 statements in never-built/built/half-built/partly-deleted states + look-alike files x clean scope (all, -g, "
                 "1..3 targets, 1..3 rules incl. 'phony', cleandead after dropping/renaming a statement, 25%% dry run); distinct_nontrivial "
                 "= distinct scenarios in which at least one existing file was in scope")
@@ -199,6 +201,8 @@ def judge(ctx, scn, scs, ci, results):
             t = r["trace"]
             if t.get("crash"):
                 ctx.inconclusive += 1
+                ctx.count("inconclusive_setup_build_crashed")
+                ctx.note_crash = (t.get("stderr") or "")[-400:]
                 return
             world = t["world"]["files"]
             logs = t["world"].get("logs", {})
